@@ -513,10 +513,13 @@ _ure_prop_list(ucs2_t *pp, unsigned long limit, unsigned long *mask,
 
     /*
      * If a property number greater than 32 occurs, then there is a
-     * problem.  Most likely a missing comma separator.
+     * problem.  Most likely a missing comma separator. The number also
+     * indexes cclass_flags[].
      */
-    if (n > 32)
+    if (n > 32 || n >= sizeof(cclass_flags) / sizeof(cclass_flags[0])) {
       b->error = _URE_INVALID_PROPERTY;
+      n = 0;
+    }
   }
 
   if (n != 0)
